@@ -397,3 +397,272 @@ func TestVerifC09Grid(t *testing.T) {
 		c09Oracle(c, b, cs.MTU, uint64(cs.MTU), false)
 	})
 }
+
+// ---- second-level fragmentation: a fragment is a bundle too -------------------------------
+
+type c09ReCase struct {
+	Spec     vk.BundleSpec `json:"spec"`
+	MTU1Kind string        `json:"mtu1kind"`
+	MTU1Arg  int           `json:"mtu1arg"`
+	Pick     int           `json:"pick"`
+	MTU2Kind string        `json:"mtu2kind"`
+	MTU2Arg  int           `json:"mtu2arg"`
+	Perm     uint64        `json:"perm"`
+}
+
+// c09ReOracle fragments b for mtu1, fragments the pick-th resulting fragment again for mtu2 and
+// judges the second-level fragments: size limit, validity, identity fields, offsets relative to
+// the ORIGINAL payload partitioning exactly the parent's range, original total length, and
+// byte-identical reassembly of the original when the parent is replaced by its children.
+func c09ReOracle(c *vk.Ctx, b Bundle, mtu1 int, pick int, mtu2 func(parentLen, parentPay int) int, perm uint64) {
+	enc, err := vfWrite(&b)
+	if err != nil {
+		c.Failf("c09.harness", "original does not serialise: %v", err)
+	}
+	worig, err := vk.ReadBundle(enc)
+	if err != nil {
+		c.Failf("c09.harness", "independent reader fails on the original: %v", err)
+	}
+	payload, _ := worig.Payload()
+	orig, err := vfParse(enc)
+	if err != nil {
+		c.Failf("c09.harness", "original is rejected by the parser: %v", err)
+	}
+	first, ferr := orig.Fragment(mtu1)
+	if ferr != nil || len(first) < 2 {
+		c.Class("first level: not fragmented")
+		return
+	}
+	k := pick % len(first)
+	penc, err := vfWrite(&first[k])
+	if err != nil {
+		c.Failf("c09.fragment-invalid", "first-level fragment %d does not serialise: %v", k, err)
+	}
+	wpar, err := vk.ReadBundle(penc)
+	if err != nil {
+		c.Failf("c09.fragment-invalid", "first-level fragment %d: independent reader: %v", k, err)
+	}
+	ppay, _ := wpar.Payload()
+	poff := wpar.Primary.FragOff
+	parent, err := vfParse(penc)
+	if err != nil {
+		c.Failf("c09.fragment-invalid", "first-level fragment %d is rejected by the parser: %v", k, err)
+	}
+	m2 := mtu2(len(penc), len(ppay))
+	second, serr := parent.Fragment(m2)
+	if poff == 0 {
+		c.Class("parent: first fragment")
+	} else {
+		c.Class("parent: later fragment")
+	}
+	if serr != nil {
+		if len(penc) <= m2 {
+			c.NonTrivial()
+			c.Failf("c09.fits-but-error", "fragment of %d bytes fits MTU %d but Fragment fails: %v", len(penc), m2, serr)
+		}
+		c.Class("second level: Fragment error (allowed)")
+		return
+	}
+	if len(second) == 0 {
+		c.NonTrivial()
+		c.Failf("c09.empty-list", "Fragment(%d) of a %d-byte fragment returned an empty list and no error", m2, len(penc))
+	}
+	if len(penc) <= m2 {
+		c.NonTrivial()
+		c.Class("second level: fits")
+		if len(second) != 1 {
+			c.Failf("c09.fits-but-fragmented", "fragment of %d bytes fits MTU %d but was split into %d fragments", len(penc), m2, len(second))
+		}
+		e2, err := vfWrite(&second[0])
+		if err != nil || !bytes.Equal(e2, penc) {
+			c.Failf("c09.fits-but-fragmented", "fragment of %d bytes fits MTU %d but the returned bundle differs from it (err %v)", len(penc), m2, err)
+		}
+		return
+	}
+	if len(second) >= 2 && poff > 0 {
+		c.NonTrivial()
+	}
+	c.Class("second level: fragmented")
+	width := func(v uint64) int {
+		switch {
+		case v < 24:
+			return 1
+		case v < 256:
+			return 2
+		case v < 65536:
+			return 3
+		}
+		return 5
+	}
+	type piece struct {
+		off  uint64
+		data []byte
+	}
+	var pieces []piece
+	for i := range second {
+		fe, err := vfWrite(&second[i])
+		if err != nil {
+			c.Failf("c09.fragment-invalid", "second-level fragment %d does not serialise: %v", i, err)
+		}
+		wf, err := vk.ReadBundle(fe)
+		if err != nil {
+			c.Failf("c09.fragment-invalid", "second-level fragment %d: independent reader: %v", i, err)
+		}
+		p, o := &wf.Primary, &worig.Primary
+		if width(p.FragOff) > width(p.FragOff-poff) {
+			c.Class("offset wider than the local offset")
+		}
+		if len(fe) > m2 {
+			c.Failf("c09.exceeds-mtu", "fragment (offset %d) of the fragment at offset %d serialises to %d bytes > MTU %d", p.FragOff, poff, len(fe), m2)
+		}
+		if _, err := vfParse(fe); err != nil {
+			c.Failf("c09.fragment-invalid", "second-level fragment %d is rejected by the parser: %v", i, err)
+		}
+		if p.Flags != o.Flags|vk.FIsFragment {
+			c.Failf("c09.fragment-identity", "second-level fragment %d has bundle flags %#x, original %#x", i, p.Flags, o.Flags)
+		}
+		if p.Src != o.Src || p.Dst != o.Dst || p.Rpt != o.Rpt || p.TsTime != o.TsTime || p.TsSeq != o.TsSeq || p.Lifetime != o.Lifetime || p.CRCType != o.CRCType {
+			c.Failf("c09.fragment-identity", "second-level fragment %d differs from the original in source/destination/report-to/timestamp/lifetime", i)
+		}
+		if p.Total != uint64(len(payload)) {
+			c.Failf("c09.total-length", "second-level fragment %d announces total length %d, the original payload has %d bytes", i, p.Total, len(payload))
+		}
+		fp, ok := wf.Payload()
+		if !ok {
+			c.Failf("c09.fragment-invalid", "second-level fragment %d has no payload block", i)
+		}
+		pieces = append(pieces, piece{p.FragOff, fp})
+	}
+	sort.Slice(pieces, func(i, j int) bool { return pieces[i].off < pieces[j].off })
+	pos := poff
+	for _, pc := range pieces {
+		if pc.off != pos {
+			c.Failf("c09.partition", "second-level offsets do not partition the parent's range [%d,%d): expected offset %d, found %d", poff, poff+uint64(len(ppay)), pos, pc.off)
+		}
+		if pos+uint64(len(pc.data)) > uint64(len(payload)) || !bytes.Equal(pc.data, payload[pos:pos+uint64(len(pc.data))]) {
+			c.Failf("c09.payload-content", "second-level fragment at offset %d does not carry the original payload bytes", pc.off)
+		}
+		pos += uint64(len(pc.data))
+	}
+	if pos != poff+uint64(len(ppay)) {
+		c.Failf("c09.partition", "second-level fragments end at %d, the parent ends at %d", pos, poff+uint64(len(ppay)))
+	}
+	// the original from: the other first-level fragments + the children
+	var pool []Bundle
+	for i := range first {
+		if i != k {
+			pool = append(pool, first[i])
+		}
+	}
+	pool = append(pool, second...)
+	id := make([]int, len(pool))
+	rev := make([]int, len(pool))
+	for i := range id {
+		id[i] = i
+		rev[i] = len(pool) - 1 - i
+	}
+	for _, ord := range [][]int{id, rev, permute(len(pool), perm), permute(len(pool), perm+1)} {
+		in := make([]Bundle, len(pool))
+		for i, j := range ord {
+			in[i] = pool[j]
+		}
+		r, err := ReassembleFragments(in)
+		if err != nil {
+			c.Failf("c09.reassembly-error", "reassembling %d first- and second-level fragments (order %v) fails: %v", len(pool), ord, err)
+		}
+		re, err := vfWrite(&r)
+		if err != nil {
+			c.Failf("c09.reassembly-error", "reassembled bundle does not serialise: %v", err)
+		}
+		if !bytes.Equal(re, enc) {
+			d := firstDiff(re, enc)
+			c.Failf("c09.reassembly-differs", "bundle reassembled from first- and second-level fragments differs from the original at offset %d: …%x vs …%x", d, vfTrunc(re[d:]), vfTrunc(enc[d:]))
+		}
+	}
+}
+
+func TestVerifC09Refragment(t *testing.T) {
+	vfRegisterCustom()
+	u := vk.Unit{Property: "C09", Name: "c09.refragment", Quick: 4000, Thorough: 300000,
+		Rule: "a fragment is a bundle too: generated bundles (as c09.random, payload 40..70000) are fragmented for a first limit, one of the resulting fragments (any position) is fragmented again for a second limit drawn around small values / its encoded length / its overhead / payload fractions; oracle for the second level: size limit, parser acceptance, identity fields, total length of the ORIGINAL payload, offsets relative to the original payload partitioning exactly the parent's range, 'fits => itself', and byte-identical reassembly of the original from the remaining first-level fragments plus the children in 4 orders; non-trivial = a later (offset > 0) fragment split into >= 2 pieces or a fits boundary case; distinct by case hash"}
+	gen := func(t *rapid.T) c09ReCase {
+		o := c09Opts
+		o.NoNoFragment = true
+		if rapid.IntRange(0, 9).Draw(t, "small") > 0 {
+			o.MaxPayload = 1500
+		}
+		s := vk.GenBundle(o).Draw(t, "bundle")
+		p := s.PayloadSpec()
+		if p.PayLen < 40 {
+			p.PayLen += 40 + rapid.IntRange(0, 600).Draw(t, "grow")
+		}
+		for i := range s.Blocks {
+			if s.Blocks[i].Type == vk.BTAge {
+				s.Blocks[i].Flags |= vk.BFReplicate
+			}
+		}
+		return c09ReCase{Spec: s,
+			MTU1Kind: rapid.SampledFrom([]string{"payload/", "payload/", "overhead+", "abs", "len-"}).Draw(t, "m1k"),
+			MTU1Arg:  rapid.IntRange(0, 5000).Draw(t, "m1a"), Pick: rapid.IntRange(0, 40).Draw(t, "pick"),
+			MTU2Kind: rapid.SampledFrom(c09MTUKinds).Draw(t, "m2k"), MTU2Arg: rapid.IntRange(0, 5000).Draw(t, "m2a"),
+			Perm: rapid.Uint64Range(0, 1<<30).Draw(t, "perm")}
+	}
+	vk.Check(t, u, gen, func(c *vk.Ctx, cs c09ReCase) {
+		b := vfBundle(&cs.Spec, vfNowDtn())
+		enc, err := vfWrite(&b)
+		if err != nil {
+			c.Failf("c09.harness", "serialise: %v", err)
+		}
+		c1 := c09Case{MTUKind: cs.MTU1Kind, MTUArg: cs.MTU1Arg}
+		mtu1 := c09MTU(&c1, len(enc), cs.Spec.PayloadSpec().PayLen)
+		c09ReOracle(c, b, mtu1, cs.Pick, func(pl, pp int) int {
+			c2 := c09Case{MTUKind: cs.MTU2Kind, MTUArg: cs.MTU2Arg}
+			return c09MTU(&c2, pl, pp)
+		}, cs.Perm)
+	})
+}
+
+type c09ReGridCase struct {
+	Layout int `json:"layout"`
+	PayLen int `json:"paylen"`
+	MTU1   int `json:"mtu1"`
+	Pick   int `json:"pick"`
+	MTU2   int `json:"mtu2"`
+}
+
+func TestVerifC09RefragmentGrid(t *testing.T) {
+	vfRegisterCustom()
+	layouts, pays, step := 3, []int{60, 300}, 7
+	if vk.Tier() == "thorough" {
+		layouts, pays, step = 10, []int{30, 60, 120, 300, 700}, 1
+	}
+	u := vk.Unit{Property: "C09", Name: "c09.refragment-grid",
+		Rule: "exhaustive second-level grid: block layouts x payload lengths (offsets cross 24 and 256) x first limits (overhead + payload/2, /3, /5) x every first-level fragment x EVERY second limit from 1 to the fragment's length + 2 (quick: every 7th); oracle as c09.refragment; distinct by tuple"}
+	vk.Enumerate(t, u, step == 1, func(yield func(c09ReGridCase) bool) {
+		i := 0
+		for l := 0; l < layouts; l++ {
+			for _, p := range pays {
+				s := c09Layout(l, p)
+				n := len(s.Encode(vfNowDtn()))
+				for _, div := range []int{2, 3, 5} {
+					m1 := n - p + p/div + 8
+					for pick := 0; pick <= div+1; pick++ {
+						i++
+						if !vk.ShardOwns(i) {
+							continue
+						}
+						for m2 := 1 + (l+pick)%step; m2 <= m1+2; m2 += step {
+							if !yield(c09ReGridCase{l, p, m1, pick, m2}) {
+								return
+							}
+						}
+					}
+				}
+			}
+		}
+	}, func(c *vk.Ctx, cs c09ReGridCase) {
+		s := c09Layout(cs.Layout, cs.PayLen)
+		b := vfBundle(&s, vfNowDtn())
+		c09ReOracle(c, b, cs.MTU1, cs.Pick, func(int, int) int { return cs.MTU2 }, uint64(cs.MTU2))
+	})
+}
